@@ -86,6 +86,12 @@ type TreeNode struct {
 }
 type OneField struct{ P *int }
 
+// IfaceKey is comparable as a type but not always as a value: with a list or a map in K it cannot be hashed
+type IfaceKey struct {
+	K interface{}
+	N int
+}
+
 // OneMap: like OneField a struct whose only field is pointer-shaped, so that the struct itself is stored
 // directly in an interface word
 type OneMap struct{ M map[string]int }
@@ -465,7 +471,7 @@ func Ctors(t reflect.Type) []reflect.Type {
 func NamedStructs() []reflect.Type {
 	return []reflect.Type{
 		reflect.TypeOf(Inner{}), reflect.TypeOf(Tagged{}), reflect.TypeOf(Embedded{}), reflect.TypeOf(Rec{}),
-		reflect.TypeOf(TreeNode{}), reflect.TypeOf(OneField{}), reflect.TypeOf(OneMap{}), reflect.TypeOf(Empty{}), reflect.TypeOf(Wide{}),
+		reflect.TypeOf(TreeNode{}), reflect.TypeOf(OneField{}), reflect.TypeOf(OneMap{}), reflect.TypeOf(IfaceKey{}), reflect.TypeOf(Empty{}), reflect.TypeOf(Wide{}),
 		reflect.TypeOf(MyIntSlice{}), reflect.TypeOf(MyMap{}),
 		reflect.TypeOf(EmbLate{}), reflect.TypeOf(EmbUnexported{}), reflect.TypeOf(EmbDeep{}),
 	}
